@@ -1,5 +1,6 @@
 """C04 — Failed tasks are retried, errors surface, and the context stays usable."""
 import itertools
+import os
 import threading
 
 from core import CaseTimeout, Mismatch, Prop, canon
@@ -9,9 +10,9 @@ class CustomFault(RuntimeError):
     pass
 
 
-EXC = {'ValueError': ValueError, 'KeyError': KeyError, 'Custom': CustomFault}
+EXC = {'ValueError': ValueError, 'KeyError': KeyError, 'Custom': CustomFault, 'StopIteration': StopIteration}
 ACTIONS = ['collect', 'sum', 'reduce', 'count', 'foreach', 'fold', 'countByValue', 'toLocalIterator', 'groupByKey', 'zipWithIndex',
-           'distinct']
+           'distinct', 'takeSample']
 LAZY = ['take', 'first', 'isEmpty']
 
 
@@ -60,8 +61,17 @@ class C04(Prop):
         out.append({'max': 2, 'executor': 'default', 'jobs': [{'plan': [{'fails': 0, 'v': 1, 'pos': 'mid', 'exc': 'Custom'},
                                                                           {'nested': 'count'}], 'action': 'sum'}]})
         out.append({'max': 3, 'executor': 'default', 'jobs': [{'plan': [], 'action': 'first', 'lazy': True, 'empty': True}]})
-        for nested in ('parallelize', 'count', 'first'):
+        for ex in ('default', 'tpe', 'threadpool'):
+            for f in (1, 2):
+                out.append({'max': 2, 'executor': ex, 'jobs': [{'plan': [
+                    {'fails': 0, 'v': 5, 'pos': 'before', 'exc': 'ValueError'}, {'fails': f, 'v': 9, 'pos': 'before', 'exc': 'StopIteration'},
+                    {'fails': 0, 'v': 2, 'pos': 'before', 'exc': 'ValueError'}], 'action': 'collect'}]})
+            out.append({'max': 3, 'executor': ex, 'jobs': [{'plan': [
+                {'fails': 0, 'v': 5, 'pos': 'mid', 'exc': 'ValueError'}, {'fails': 1, 'v': 9, 'pos': 'mid', 'exc': 'KeyError'}],
+                'action': 'takeSample'}]})
+        for nested in ('parallelize', 'count', 'first', 'isEmpty', 'top', 'distinct', 'save'):
             out.append({'kind': 'serialized-nested', 'nested': nested, 'max': 2})
+        out.append({'kind': 'late-sibling'})
         return out
 
     def gen(self, rng, tier):
@@ -78,18 +88,18 @@ class C04(Prop):
                 else:
                     f = rng.choice([0, 0, 0, 1, 1, 2, mx - 1, mx, mx + 1])
                     plan.append({'fails': max(0, f), 'v': rng.randint(-5, 20), 'pos': 'before' if lazy else rng.choice(['before', 'mid', 'after']),
-                                 'exc': rng.choice(list(EXC))})
+                                 'exc': rng.choice([e for e in EXC if not (lazy and e == 'StopIteration')])})
             jobs.append({'plan': plan, 'action': rng.choice(LAZY) if lazy else rng.choice(ACTIONS), 'lazy': lazy,
                          'persist': (not lazy) and rng.random() < .3})
         return {'max': mx, 'executor': ex, 'jobs': jobs}
 
     def nontrivial(self, case):
-        if case.get('kind') == 'serialized-nested':
+        if case.get('kind') in ('serialized-nested', 'late-sibling'):
             return True
         return any(p.get('fails', 1) > 0 for j in case['jobs'] for p in j['plan'])
 
     def shrink(self, case):
-        if case.get('kind') == 'serialized-nested':
+        if case.get('kind') in ('serialized-nested', 'late-sibling'):
             return
         jobs = case['jobs']
         if len(jobs) > 1:
@@ -129,6 +139,20 @@ class C04(Prop):
         attempts = {}
 
         def faulty(i, it):
+            if plan[i].get('exc') == 'StopIteration':
+                return faulty_plain(i, it)
+            return faulty_gen(i, it)
+
+        def faulty_plain(i, it):
+            # not a generator: a StopIteration leaving it (e.g. next() of an exhausted iterator in user code) is a task failure
+            with lock:
+                attempts[i] = attempts.get(i, 0) + 1
+                att = attempts[i] - 1
+            if att < plan[i]['fails']:
+                raise StopIteration(i, att)
+            return list(it)
+
+        def faulty_gen(i, it):
             with lock:
                 attempts[i] = attempts.get(i, 0) + 1
                 att = attempts[i] - 1
@@ -185,6 +209,8 @@ class C04(Prop):
                 res = sum(x for x, _ in rdd.zipWithIndex().collect())
             elif act == 'distinct':
                 res = sorted(rdd.distinct().collect())
+            elif act == 'takeSample':   # not one of the lazily evaluated actions: sizes and draws through whole-partition jobs
+                res = sum(rdd.takeSample(False, 1000, 7))
             elif act == 'take':
                 res = rdd.take(1000)
             elif act == 'first':
@@ -202,6 +228,13 @@ class C04(Prop):
         except tuple(EXC.values()) as e:
             out = {'raised': e.args[0] * 100 + e.args[1] + 1, 'cls': type(e).__name__,
                    'want_cls': EXC[plan[e.args[0]]['exc']].__name__}
+        except RuntimeError as e:
+            c = e.__cause__ or e.__context__
+            if isinstance(c, StopIteration) and len(c.args) == 2:
+                # a task's StopIteration reaches the caller as RuntimeError (PEP 479, as in PySpark), carrying the original
+                out = {'raised': c.args[0] * 100 + c.args[1] + 1, 'cls': 'StopIteration', 'want_cls': 'StopIteration'}
+            else:
+                out = {'raised_any': type(e).__name__}
         except CaseTimeout:
             raise
         except BaseException as e:  # pylint: disable=broad-except
@@ -222,6 +255,7 @@ class C04(Prop):
             sc = self.Context(pool=pool, serializer=cloudpickle.dumps, deserializer=pickle.loads, max_retries=case['max'])
             base = sc.parallelize([1, 2, 3, 4], 2)
             kind = case['nested']
+            save_dir = ctx.scratch
 
             def f(x):
                 if kind == 'parallelize':
@@ -230,6 +264,14 @@ class C04(Prop):
                     base.count()
                 elif kind == 'first':
                     base.first()
+                elif kind == 'isEmpty':
+                    base.isEmpty()
+                elif kind == 'top':
+                    base.top(1)
+                elif kind == 'distinct':
+                    base.distinct()
+                elif kind == 'save':
+                    base.saveAsTextFile(save_dir + '/nested-save-%d' % x)
                 return x
             try:
                 got = {'done': base.map(f).collect()}
@@ -249,13 +291,63 @@ class C04(Prop):
             pool.shutdown()
         if got != 'refused':
             return Mismatch('a task that %s through the (pickled copy of the) context was not refused with ContextIsLockedException'
-                            % {'parallelize': 'creates a dataset', 'count': 'runs count()', 'first': 'runs first()'}[kind],
+                            % {'parallelize': 'creates a dataset', 'count': 'runs count()', 'first': 'runs first()',
+                               'isEmpty': 'runs isEmpty()', 'top': 'runs top(1)', 'distinct': 'runs distinct()',
+                               'save': 'runs saveAsTextFile()'}[kind],
                             got, 'ContextIsLockedException', 'C04:nested:serialized', relation='spec')
         if follow != [2, 3, 4]:
             return Mismatch('follow-up job after the refused one', follow, [2, 3, 4], 'C04:result:follow-up', relation='spec')
         return None
 
+    def run_late_sibling(self, case, ctx):
+        """a thread pool, one attempt per task: partition 0 fails, partition 1 is still inside its task when the driver
+        receives the error; whatever partition 1 then tries to start on the context must be refused - it is a running task"""
+        from concurrent.futures import ThreadPoolExecutor
+        ctx.note('executor:tpe')
+        ctx.note('late-sibling')
+        pool = ThreadPoolExecutor(2)
+        started, release, finished, outcome = threading.Event(), threading.Event(), threading.Event(), []
+        try:
+            sc = self.Context(pool=pool, max_retries=1)
+            locked = self.Locked
+
+            def f(i, it):
+                if i == 0:
+                    started.wait(5)              # the sibling is inside its task
+                    raise ValueError(0, 0)
+                started.set()
+                release.wait(10)                 # ... and stays there until the driver has seen the job fail
+                try:
+                    outcome.append(['done', sc.parallelize([1, 2, 3]).count()])
+                except locked:
+                    outcome.append(['refused'])
+                except BaseException as e:  # pylint: disable=broad-except
+                    outcome.append(['raised', type(e).__name__])
+                finished.set()
+                return it
+            try:
+                sc.parallelize([0, 1], 2).mapPartitionsWithIndex(f).collect()
+                first = 'done'
+            except ValueError:
+                first = 'raised'
+            release.set()
+            finished.wait(10)
+            follow = sc.parallelize([1, 2, 3], 2).map(lambda x: x + 1).collect()
+        finally:
+            release.set()
+            pool.shutdown(wait=True)
+        if first != 'raised':
+            return Mismatch('the failing partition\'s exception did not reach the caller', first, 'raised', 'C04:exception')
+        if follow != [2, 3, 4]:
+            return Mismatch('follow-up job after the failed one', follow, [2, 3, 4], 'C04:result:follow-up', relation='spec')
+        if outcome != [['refused']]:
+            return Mismatch('a task still running after its job has failed on a thread pool started a job on the context and was not '
+                            'refused', outcome, [['refused']], 'C04:late-sibling-nested-job', relation='spec')
+        return None
+
     def run_case(self, case, ctx):
+        if case.get('kind') == 'late-sibling':
+            return self.run_late_sibling(case, ctx)
         if case.get('kind') == 'serialized-nested':
             return self.run_serialized_nested(case, ctx)
         pool = self.make_pool(case['executor'])
@@ -292,7 +384,7 @@ class C04(Prop):
                 vs = w['done']
                 act = j['action']
                 exp = {'collect': vs, 'sum': sum(vs), 'reduce': sum(vs), 'fold': sum(vs), 'count': 2 * len(vs),
-                       'toLocalIterator': sum(vs), 'groupByKey': sum(vs), 'zipWithIndex': sum(vs),
+                       'toLocalIterator': sum(vs), 'groupByKey': sum(vs), 'zipWithIndex': sum(vs), 'takeSample': sum(vs),
                        'distinct': sorted({x for v in vs for x in (v - 1, 1)}),
                        'foreach': None, 'countByValue': sum(vs), 'take': [x for v in vs for x in (v - 1, 1)],
                        'first': (vs[0] - 1) if vs else None, 'isEmpty': False}[act]
